@@ -179,35 +179,69 @@ def ev_postdominates(fn, a, b, pdom=None):
 
 
 class Typestate:
-    """Forward powerset dataflow.  States are hashable user values.  transfer(event, state) returns an
-    iterable of successor states (or a single state); edge(cond, polarity, state, fn, blk) likewise (default: identity).
-    Records the set of states *before* each event and at function exit / at noreturn ends."""
+    """Forward powerset dataflow.  States are hashable user values.  transfer(event, state) returns a successor
+    state or a *list* of states; edge(cond, polarity, state, fn, blk) likewise (default: identity).
+    Records the set of states *before* each event and at function exit.
+    correlate=True prunes infeasible combinations of branches on the same unmodified local condition
+    (`if (!managed) ...; if (managed) ...`): the state is paired with the branch facts known so far."""
 
-    def __init__(self, fn, init, transfer, edge=None, limit=20000):
+    def __init__(self, fn, init, transfer, edge=None, limit=50000, correlate=False):
         self.fn = fn
         self.transfer = transfer
         self.edge = edge
-        self.before = {}  # event pos -> set of states
+        self.before = {}  # event pos -> set of user states
         self.block_in = {b: set() for b in fn.blocks}
         self.exit_states = set()
-        self.ret_states = {}  # ret event pos -> states before it
         self.limit = limit
         self.overflow = False
+        self.correlate = correlate
+        self._stable = stable_locals(fn) if correlate else set()
         self._run(init)
 
-    def _as_set(self, r):
+    def _as_list(self, r):
         if r is None:
-            return set()
+            return []
         if isinstance(r, list):
-            return set(r)
-        return {r}
+            return r
+        return [r]
+
+    def _cond_key(self, cond):
+        """(key, negated, vars) for a trackable condition, else None"""
+        fn = self.fn
+        n = fn.d(cond)
+        neg = False
+        while n is not None and n["k"] == "un" and n["op"] == "!":
+            neg = not neg
+            n = fn.d(n["a"][0])
+        while n is not None and n["k"] == "cast":
+            n = fn.d(n["a"][0])
+        if n is None:
+            return None
+        vs = set()
+        for x in fn.walk(n, follow_refs=True):
+            k = x["k"]
+            if k == "var":
+                if x["n"] not in self._stable:
+                    return None
+                vs.add(x["n"])
+            elif k in ("int", "bin", "cast", "un"):
+                if k == "un" and x["op"] in ("deref", "addr", "post++", "post--", "pre++", "pre--"):
+                    return None
+                if k == "bin" and x["op"] in ("=", "+=", "-=", "*=", "/=", "|=", "&=", "^=", "<<=", ">>=", ","):
+                    return None
+            else:
+                return None
+        if not vs:
+            return None
+        return (fn.show(n), neg, frozenset(vs))
 
     def _run(self, init):
         fn = self.fn
         evs = fn.events()
         work = [fn.entry]
-        self.block_in[fn.entry] = {init}
-        pending = {fn.entry: set(self.block_in[fn.entry])}
+        start = (init, frozenset())
+        self.block_in[fn.entry] = {start}
+        pending = {fn.entry: {start}}
         total = 0
         while work:
             b = work.pop()
@@ -216,24 +250,38 @@ class Typestate:
                 continue
             cur = set(new_states)
             for e in evs[b]:
-                self.before.setdefault(e.pos, set()).update(cur)
+                self.before.setdefault(e.pos, set()).update(u for u, _ in cur)
+                killed = assigned_vars(fn, e) if self.correlate else ()
                 nxt = set()
-                for s in cur:
-                    nxt |= self._as_set(self.transfer(e, s))
+                for (u, facts) in cur:
+                    if killed:
+                        facts = frozenset(f for f in facts if not (f[2] & killed))
+                    for u2 in self._as_list(self.transfer(e, u)):
+                        nxt.add((u2, facts))
                 cur = nxt
                 if not cur:
                     break
             if not cur:
                 continue
             if b == fn.exit:
-                self.exit_states |= cur
+                self.exit_states |= {u for u, _ in cur}
             for s_id, cond, pol in edges(fn, b):
                 out = set()
-                if self.edge is not None and cond is not None:
-                    for s in cur:
-                        out |= self._as_set(self.edge(cond, pol, s, fn, b))
-                else:
-                    out = set(cur)
+                ck = self._cond_key(cond) if (self.correlate and cond is not None and isinstance(pol, bool)) else None
+                for (u, facts) in cur:
+                    if ck is not None:
+                        key, neg, vs = ck
+                        val = (pol != neg)
+                        if (key, not val, vs) in facts:
+                            continue  # contradicts an earlier decision on the same unmodified condition
+                        facts2 = facts | {(key, val, vs)}
+                    else:
+                        facts2 = facts
+                    if self.edge is not None and cond is not None:
+                        for u2 in self._as_list(self.edge(cond, pol, u, fn, b)):
+                            out.add((u2, facts2))
+                    else:
+                        out.add((u, facts2))
                 fresh = out - self.block_in[s_id]
                 if fresh:
                     self.block_in[s_id] |= fresh
@@ -244,6 +292,19 @@ class Typestate:
                         return
                     if s_id not in work:
                         work.append(s_id)
+
+
+def stable_locals(fn):
+    """locals and parameters whose address is never taken (so only direct assignments change them)"""
+    names = {p["n"] for p in fn.params}
+    taken = set()
+    for e in fn.all_events():
+        if e.kind == "decl":
+            for v in e.node["vars"]:
+                names.add(v["n"])
+        if e.kind == "access" and e.node["k"] == "var" and e.mode == "addr":
+            taken.add(e.node["n"])
+    return names - taken
 
 
 def assigned_vars(fn, e):
